@@ -199,6 +199,7 @@ structure DSt where
   authUsers : List AUser := []
   nAuth : Nat := 0
   nAuthOk : Nat := 0
+  nConn : Nat := 0                -- connection-level attributions (HttpServerConnection's constructor)
   inv : List Obj := []
   invJoins : List (Obj × String × String) := []
   user : User := []
@@ -218,6 +219,12 @@ structure DSt where
   h404 : Nat := 0
   hActions : Nat := 0
   hDeletes : Nat := 0
+  /-- round 4: the inventory was created through the API (deletes really delete, schedule-downtime really runs) -/
+  apiInv : Bool := false
+  nGone : Nat := 0                -- delete requests on API-created objects whose gone-set was checked
+  nGoneNonEmpty : Nat := 0
+  nDowntime : Nat := 0            -- schedule-downtime requests with all_services whose downtime set was checked
+  nSecondary : Nat := 0           -- ... of both kinds that acted on an object beyond their targets
   nCreate : Nat := 0
   nCreated : Nat := 0
   nCreateFilteredOnly : Nat := 0   -- created through a match all of whose matching entries carry a filter (F-C18b class)
@@ -449,6 +456,11 @@ def handleH (d : DSt) (n : Nat) (pre post : List String) : IO DSt := do
       | some v => [(type, (splitC v ",").map dec)]
       | none => []
     let hasF := (kvOf toks "f").isSome
+    let cascade := toks.contains "cs=1"
+    let allSvc := toks.contains "as=1"
+    let deps (o : Obj) : List Obj :=
+      if o.type == "Host" then d.inv.filter (fun s => s.type == "Service" && hostOf s == o) else []
+    let apiInv := d.apiInv
     let wantJoin := toks.contains "j" && verb == "q"
     -- the joined objects of a returned object that are inventory objects: (field, joined object)
     let joinCands (o : Obj) : List (String × Obj) :=
@@ -494,7 +506,9 @@ def handleH (d : DSt) (n : Nat) (pre post : List String) : IO DSt := do
       -- for actions the harness observes the set of objects acted on and the number of results
       let icnt := (kvOf kvs "cnt").getD "?"
       let showH (res : Except Err (List Obj)) : String :=
-        let st := if isAction then actionStatus res else if verb == "delete" then deleteStatusNonApi res else httpStatus res
+        let st := if isAction then actionStatus res
+                  else if verb == "delete" then (if apiInv then deleteStatusApi deps cascade res else deleteStatusNonApi res)
+                  else httpStatus res
         s!"{st}:" ++ (match res with
         | .ok objs =>
           let l := sortStrs ((if isAction then objs.eraseDups else objs).map showObj)
@@ -562,6 +576,37 @@ def handleH (d : DSt) (n : Nat) (pre post : List String) : IO DSt := do
             IO.println s!"MISMATCH line={n} case={d.caseNo} what=changed impl={showSet changed} model={showSet mchanged}"
             d := { d with mismatches := d.mismatches + 1 }
           match specChanged d.user qd.permission changed with
+          | some cl =>
+            IO.println s!"SPECFAIL line={n} case={d.caseNo} clause={cl.name}"
+            d := { d with specfails := d.specfails + 1 }
+          | none => pure ()
+        | none =>
+          IO.println s!"BADLINE line={n}"
+          d := { d with badlines := d.badlines + 1 }
+      -- round 4: a delete on API-created objects / schedule-downtime with all_services: every object of the WHOLE inventory
+      -- that is gone / has a downtime now, against the targets the handler obtained
+      let showSet4 (l : List Obj) : String := let x := sortStrs (l.eraseDups.map showObj); if x.isEmpty then "-" else ",".intercalate x
+      let acted? : Option (List Obj × List Obj × String) :=
+        if verb == "delete" && apiInv then
+          ((kvOf kvs "gone").bind parseObjs).map fun g => (g, deleteGone d.user type pathName q0 d.inv deps cascade, "gone")
+        else if allSvc then
+          ((kvOf kvs "dt").bind parseObjs).map fun g => (g, downtimeActed d.user actTypes q d.inv deps, "downtimes")
+        else none
+      if (verb == "delete" && apiInv) || allSvc then
+        match acted? with
+        | some (acted, macted, what) =>
+          if what == "gone" then
+            d := { d with nGone := d.nGone + 1, nGoneNonEmpty := d.nGoneNonEmpty + (if acted.isEmpty then 0 else 1) }
+          else d := { d with nDowntime := d.nDowntime + 1 }
+          let targets := if withResults then iobjs else []
+          if acted.any (fun o => !targets.contains o) then d := { d with nSecondary := d.nSecondary + 1, caseNontrivial := true }
+          if ishow == mshow && showSet4 acted != showSet4 macted then
+            IO.println s!"MISMATCH line={n} case={d.caseNo} what={what} impl={showSet4 acted} model={showSet4 macted}"
+            d := { d with mismatches := d.mismatches + 1 }
+          -- dependents count as "going with a target" only when the request asked for them (cascade / all_services); otherwise a
+          -- forbidden object beyond the targets is reported like a forbidden target (changed_objects_allowed)
+          let depsReq : Obj → List Obj := if cascade || allSvc then deps else fun _ => []
+          match specActed d.user qd.permission depsReq targets acted with
           | some cl =>
             IO.println s!"SPECFAIL line={n} case={d.caseNo} clause={cl.name}"
             d := { d with specfails := d.specfails + 1 }
@@ -762,6 +807,25 @@ def handleAuth (d : DSt) (n : Nat) (pre post : List String) : IO DSt := do
         | none => pure ()
       return d
     | none => bad d n
+  | ["V", ih, auth], [res] =>
+    match unhex ih, (if auth == "1" then some true else if auth == "0" then some false else none) with
+    | some identity, some authenticated =>
+      let cands := (connUser d.authUsers identity authenticated).map (·.name)
+      let mut d := { d with steps := d.steps + 1, nAuth := d.nAuth + 1, nConn := d.nConn + 1, nAuthOk := d.nAuthOk + (if res != "none" then 1 else 0) }
+      if !(if res == "none" then cands.isEmpty else cands.contains res) then
+        IO.println s!"MISMATCH line={n} case={d.caseNo} what=connuser impl={res} model={",".intercalate cands}"
+        d := { d with mismatches := d.mismatches + 1 }
+      if res != "none" then
+        let cl := match d.authUsers.find? (·.name == res) with
+          | some u => specConnUser identity authenticated (some u)
+          | none => some Clause.attributedWithoutCredential
+        match cl with
+        | some c =>
+          IO.println s!"SPECFAIL line={n} case={d.caseNo} clause={c.name}"
+          d := { d with specfails := d.specfails + 1 }
+        | none => pure ()
+      return d
+    | _, _ => bad d n
   | _, _ => bad d n
 
 def handle (d : DSt) (n : Nat) (line : String) : IO DSt := do
@@ -770,11 +834,17 @@ def handle (d : DSt) (n : Nat) (line : String) : IO DSt := do
   match pre with
   | [] => return d
   | "M" :: _ => handleM d n pre post
+  | ["C", inv, "api"] =>
+    match parseInv inv with
+    | some objs =>
+      let d := closeCase d
+      return { d with apiInv := true, inv := objs, invJoins := parseInvJoins inv, user := [], readsService := false, userRaises := false, caseNo := d.caseNo + 1, caseHash := mixHash 11 (hash inv), seenOutcomes := [] }
+    | none => bad d n
   | ["C", inv] =>
     match parseInv inv with
     | some objs =>
       let d := closeCase d
-      return { d with inv := objs, invJoins := parseInvJoins inv, user := [], readsService := false, userRaises := false, caseNo := d.caseNo + 1, caseHash := mixHash 7 (hash inv), seenOutcomes := [] }
+      return { d with apiInv := false, inv := objs, invJoins := parseInvJoins inv, user := [], readsService := false, userRaises := false, caseNo := d.caseNo + 1, caseHash := mixHash 7 (hash inv), seenOutcomes := [] }
     | none => bad d n
   | "P" :: _ =>
     let d := { d with caseHash := mixHash d.caseHash (hash (" ".intercalate pre)), seenOutcomes := [] }
@@ -788,6 +858,7 @@ def handle (d : DSt) (n : Nat) (line : String) : IO DSt := do
   | "K" :: _ => handleAuth d n pre post
   | "B" :: _ => handleAuth d n pre post
   | "N" :: _ => handleAuth d n pre post
+  | "V" :: _ => handleAuth d n pre post
   | w :: _ => if w.startsWith "#" then return d else bad d n
 
 def main : IO Unit := do
@@ -795,4 +866,4 @@ def main : IO Unit := do
   let shared := (← IO.getEnv "VERIF_C18_SHARED_FRAME") == some "1"
   let d ← foldLines stdin handle ({ sharedFrame := shared } : DSt)
   let d := closeCase d
-  IO.println s!"STATS cases={d.caseNo} steps={d.steps} matches={d.nM} matches_granted={d.nMgranted} queries={d.nQ} access={d.nA} http={d.nH} http_200={d.h200} http_404={d.h404} http_actions={d.hActions} http_deletes={d.hDeletes} auth={d.nAuth} auth_attributed={d.nAuthOk} creates={d.nCreate} created={d.nCreated} created_filtered_only={d.nCreateFilteredOnly} lookups={d.nLookup} lookups_ok={d.nLookupOk} lookups_denied={d.nLookupDenied} modify_changed_checked={d.nChanged} modify_changed_nonempty={d.nChangedNonEmpty} http_other_actions={d.hOtherActions} bare_checks={d.nBare} handlers={d.nG} handlers_200={d.g200} handlers_compared={d.gCompared} join_shown={d.hJoinShown} join_hidden={d.hJoinHidden} order_pairs={d.orderPairs} or_order_tolerated={d.orderTolerated} service_reading_two_type_named={d.readsServiceQueries} order_pairs_filtered={d.orderPairsMixed} ok_nonempty={d.okNonEmpty} ok_empty={d.okEmpty} err_perm={d.errPerm} err_denied={d.errDenied} err_notfound={d.errNotFound} err_type={d.errType} err_other={d.errOther} path_single={d.pathSingle} path_plural={d.pathPlural} path_filter_eval={d.pathFilterEval} path_fast={d.pathFast} path_all={d.pathAll} perm_filtered={d.permFiltered} multi_match={d.multiMatch} mixed_match={d.mixedMatch} filtered_out={d.filteredOut} nontrivial={d.nontrivial} mismatches={d.mismatches} specfails={d.specfails} badlines={d.badlines}"
+  IO.println s!"STATS cases={d.caseNo} steps={d.steps} matches={d.nM} matches_granted={d.nMgranted} queries={d.nQ} access={d.nA} http={d.nH} http_200={d.h200} http_404={d.h404} http_actions={d.hActions} http_deletes={d.hDeletes} deletes_gone_checked={d.nGone} deletes_gone_nonempty={d.nGoneNonEmpty} downtimes_checked={d.nDowntime} secondary_acted={d.nSecondary} auth={d.nAuth} auth_attributed={d.nAuthOk} conn_users={d.nConn} creates={d.nCreate} created={d.nCreated} created_filtered_only={d.nCreateFilteredOnly} lookups={d.nLookup} lookups_ok={d.nLookupOk} lookups_denied={d.nLookupDenied} modify_changed_checked={d.nChanged} modify_changed_nonempty={d.nChangedNonEmpty} http_other_actions={d.hOtherActions} bare_checks={d.nBare} handlers={d.nG} handlers_200={d.g200} handlers_compared={d.gCompared} join_shown={d.hJoinShown} join_hidden={d.hJoinHidden} order_pairs={d.orderPairs} or_order_tolerated={d.orderTolerated} service_reading_two_type_named={d.readsServiceQueries} order_pairs_filtered={d.orderPairsMixed} ok_nonempty={d.okNonEmpty} ok_empty={d.okEmpty} err_perm={d.errPerm} err_denied={d.errDenied} err_notfound={d.errNotFound} err_type={d.errType} err_other={d.errOther} path_single={d.pathSingle} path_plural={d.pathPlural} path_filter_eval={d.pathFilterEval} path_fast={d.pathFast} path_all={d.pathAll} perm_filtered={d.permFiltered} multi_match={d.multiMatch} mixed_match={d.mixedMatch} filtered_out={d.filteredOut} nontrivial={d.nontrivial} mismatches={d.mismatches} specfails={d.specfails} badlines={d.badlines}"
